@@ -22,6 +22,8 @@ pub const OP_WRITE_RESP: u8 = 7;
 pub const OP_INVOKE_REQ: u8 = 8;
 pub const OP_INVOKE_RESP: u8 = 9;
 pub const OP_TIMED_REQ: u8 = 10;
+/// a client gives up after this many chunks of one answer
+pub const MAX_CHUNKS: usize = 300;
 
 // ------------------------------------------------------------------------------------ data model
 
@@ -202,7 +204,11 @@ impl AsyncHandler for TestDm {
                             let it = items.get(i as usize).ok_or(ErrorCode::ConstraintError)?;
                             tw.str(tag, it)?;
                         }
-                        Some(None) => return Err(ErrorCode::InvalidAction.into()),
+                        // the empty list that precedes the items of a chunked list
+                        Some(None) => {
+                            tw.start_array(tag)?;
+                            tw.end_container()?;
+                        }
                     }
                 }
                 writer.complete()
@@ -230,7 +236,10 @@ impl AsyncHandler for TestDm {
                             tw.u8(&TLVTag::Context(0xFE), *f)?;
                             tw.end_container()?;
                         }
-                        Some(None) => return Err(ErrorCode::InvalidAction.into()),
+                        Some(None) => {
+                            tw.start_array(tag)?;
+                            tw.end_container()?;
+                        }
                     }
                 }
                 writer.complete()
@@ -571,6 +580,10 @@ pub async fn do_read(ex: &mut Exchange<'_>, req: &[u8]) -> Answer {
     let r: Result<(), Error> = async {
         ex.send(MessageMeta::new(PROTO_IM, OP_READ_REQ, true), req).await?;
         loop {
+            if ans.messages.len() >= MAX_CHUNKS {
+                ans.error = Some(format!("more than {} chunks", MAX_CHUNKS));
+                break;
+            }
             let (_, op, payload) = recv_msg(ex).await?;
             ans.messages.push((op, payload.clone()));
             match op {
